@@ -106,6 +106,15 @@ TWINS = [
     ("suspended-fiber-dropped",
      "var f = Fiber.new(|| { var big = [1, 2, 3]; Fiber.yield(big.len()); return 0; });\nprint(f.call());\nf = nil;\n",
      "var f = Fiber.new(|| { return 3; });\nprint(f.call());\nf = nil;\n"),
+    ("object-returned-through-finally",
+     "fn mk() { try { return [1, [2], (3, 4)]; } finally { print(\"cleanup\"); } }\nprint(mk().len());\n",
+     "fn mk() { return 3; }\nprint(\"cleanup\");\nprint(mk());\n"),
+    ("instance-returned-through-finally-in-a-finished-fiber",
+     "#[constructor(new)] class K {}\nvar f = Fiber.new(|| { try { var k = K.new(); k.v = [1, 2, 3]; return k; } finally { print(\"cleanup\"); } });\nprint(f.call().v.len());\n",
+     "#[constructor(new)] class K {}\nvar f = Fiber.new(|| { print(\"cleanup\"); return 3; });\nprint(f.call());\n"),
+    ("exception-object-caught-after-finally-blocks",
+     "fn t() { try { throw [1, 2, 3]; } finally { print(\"cleanup\"); } }\ntry { t(); } catch e { print(e.len()); }\n",
+     "print(\"cleanup\");\nfn t() { return 3; }\nprint(t());\n"),
     ("loop-variable-closure",
      "var keep = nil;\nfor i in 0..5 { var v = [i]; var c = || v; if i == 4 { keep = c; } }\nprint(keep());\n",
      "var keep = nil;\n{ var v = [4]; keep = || v; }\nprint(keep());\n"),
